@@ -121,6 +121,9 @@ def _curated():
     C.append(Struct('C_ext64_u16', [Field('n', u64), Field('a', u16, ('ext', 'n')), Field('t', u8)]))
     C.append(Struct('C_ext64_S8', [Field('n', u64), Field('a', S8, ('ext', 'n'))]))
     C.append(Struct('C_exti64_u32', [Field('n', i64), Field('a', u32, ('ext', 'n')), Field('t', u16)]))
+    # counters that live in a block after the first dynamic array and size arrays of later blocks
+    C.append(Struct('C_sizer_midblock', [Field('na', u32), Field('a', u8, ('ext', 'na')), Field('nc', u32), Field('nb', u32),
+                                         Field('b', u16, ('ext', 'nb')), Field('c', u32, ('ext', 'nc'))]))
     return C
 
 
